@@ -517,6 +517,13 @@ class Recon:
             ct = self._param_ctype(ctx, d.index)
             if ct is not None:
                 return ("inst", ct.name, ("p", ctx.qual, d.index), ct.layout_key)
+            if args_ann(ctx, d.index) is None:
+                # no annotation: the type every caller inside the package passes (annotations are hints, not the source of truth)
+                inf = self._infer_param(ctx, d.index, depth)
+                if inf is not None:
+                    if inf[0] == "class":
+                        return ("self", inf[1])
+                    return ("inst", inf[1], ("p", ctx.qual, d.index)) + tuple(inf[2])
             return ("p", ctx.qual, d.index)
         if k == "attr-entry":
             if ctx.ci is None:
@@ -581,6 +588,155 @@ class Recon:
             else:
                 base = ("sub", base, S.C(i))
         return base
+
+    def _call_index(self):
+        """function / method / class name -> [(caller FunctionDef, Call node)] over the whole package (syntactic)."""
+        idx = getattr(self, "_call_idx", None)
+        if idx is None:
+            idx = {}
+            for rel, mi in self.prog.infos.items():
+                for fn in ast.walk(mi.mod.tree):
+                    if not isinstance(fn, (ast.FunctionDef, ast.AsyncFunctionDef)):
+                        continue
+                    for n in _own_nodes(fn):
+                        if isinstance(n, ast.Call):
+                            f = n.func
+                            nm = f.id if isinstance(f, ast.Name) else f.attr if isinstance(f, ast.Attribute) else None
+                            if nm:
+                                idx.setdefault(nm, []).append((fn, n))
+            self._call_idx = idx
+        return idx
+
+    def _infer_param(self, ctx: FuncCtx, index, depth):
+        """('class', key) | ('inst', struct name, rest) when every call site inside the package passes that type for the
+        parameter (None values of optional parameters aside); None if there is no call site or the sites disagree."""
+        cache = self.__dict__.setdefault("_infer_cache", {})
+        key = (ctx.qual, index)
+        if key in cache:
+            return cache[key]
+        skey = ("infer", ctx.qual, index)
+        if skey in self._stack or depth > MAX_DEPTH or ctx.func is None:
+            return None
+        fn = ctx.func
+        names = [a.arg for a in fn.args.posonlyargs + fn.args.args]
+        if index is None or index >= len(names):
+            return None
+        is_method = ctx.ci is not None and not ctx.is_static
+        pname = names[index]
+        sites = []
+        if fn.name == "__init__" and ctx.ci is not None:
+            sites = [(c, n, index - 1) for c, n in self._call_index().get(ctx.ci.name, [])]
+            # super().__init__(...) in the constructors of subclasses
+            for c, n in self._call_index().get("__init__", []):
+                f_ = n.func
+                if (isinstance(f_, ast.Attribute) and isinstance(f_.value, ast.Call) and isinstance(f_.value.func, ast.Name) and f_.value.func.id == "super"
+                        and c.name == "__init__"):
+                    cc = self.ctx_of(c)
+                    if cc.ci is not None and cc.ci.key != ctx.ci.key and any(b.key == ctx.ci.key for b in self.prog.mro(cc.ci)[1:2]):
+                        sites.append((c, n, index - 1))
+        else:
+            for c, n in self._call_index().get(fn.name, []):
+                via_attr = isinstance(n.func, ast.Attribute)
+                if is_method and not via_attr:
+                    continue
+                sites.append((c, n, index - 1 if (is_method and via_attr) else index))
+        kinds = set()
+        self._stack.append(skey)
+        try:
+            for caller, call, pos in sites:
+                if caller is fn:
+                    continue
+                if not self._site_calls(ctx, caller, call, depth):
+                    continue
+                node = None
+                if 0 <= pos < len(call.args) and not any(isinstance(a, ast.Starred) for a in call.args[: pos + 1]):
+                    node = call.args[pos]
+                else:
+                    for kw in call.keywords:
+                        if kw.arg == pname:
+                            node = kw.value
+                if node is None:
+                    continue
+                cctx = self.ctx_of(caller)
+                try:
+                    t = self._e(cctx, node, cctx.cfg.node_for(call), {}, False, depth + 2)
+                except (AnalysisError, RecursionError):
+                    return None
+                for a in S.alternatives(t):
+                    if a == S.C(None):
+                        continue
+                    if a[0] == "self":
+                        kinds.add(("class", a[1]))
+                    elif a[0] == "call" and a[1].startswith("new:"):
+                        kinds.add(("class", a[1][4:]))
+                    elif a[0] == "inst":
+                        kinds.add(("inst", a[1], tuple(a[3:])))
+                    else:
+                        kinds.add(("other",))
+        finally:
+            self._stack.pop()
+        res = next(iter(kinds)) if len(kinds) == 1 and next(iter(kinds))[0] != "other" else None
+        if res is None and not kinds:
+            # never called inside the package: structural typing - the one class of this module that has every attribute
+            # the function reads from the parameter
+            used = {x.attr for x in _own_nodes(fn) if isinstance(x, ast.Attribute) and isinstance(x.value, ast.Name) and x.value.id == pname}
+            if used:
+                cands = []
+                for ci in ctx.mi.classes.values() if hasattr(ctx.mi, "classes") else []:
+                    have = set(ci.methods) | set(ci.self_assigns) | set(getattr(ci, "class_assigns", {}))
+                    for b in self.prog.mro(ci)[1:]:
+                        have |= set(b.methods) | set(b.self_assigns) | set(getattr(b, "class_assigns", {}))
+                    if used <= have:
+                        cands.append(ci)
+                if len(cands) == 1:
+                    res = ("class", cands[0].key)
+        cache[key] = res
+        return res
+
+    def _site_calls(self, ctx: FuncCtx, caller, call: ast.Call, depth) -> bool:
+        """Does this call site (found by name) call the function of ctx?"""
+        cctx = self.ctx_of(caller)
+        f = call.func
+        if (isinstance(f, ast.Attribute) and f.attr == "__init__" and isinstance(f.value, ast.Call) and isinstance(f.value.func, ast.Name)
+                and f.value.func.id == "super"):
+            return ctx.func.name == "__init__"  # pre-filtered to direct subclasses by the caller
+        if isinstance(f, ast.Name):
+            r = self.prog.resolve_name(f.id, cctx.mi)
+            if r is None:
+                return False
+            if ctx.func.name == "__init__" and ctx.ci is not None:
+                return r[0] == "class" and r[1].key == ctx.ci.key
+            return r[0] == "func" and r[2] is ctx.func
+        if isinstance(f, ast.Attribute):
+            if ctx.func.name == "__init__" and ctx.ci is not None:
+                # module.Class(...)
+                try:
+                    t = self._e(cctx, f, cctx.cfg.node_for(call), {}, False, depth + 2)
+                except (AnalysisError, RecursionError):
+                    return False
+                return t == ("cls", ctx.ci.key)
+            if ctx.ci is None:
+                return False
+            try:
+                recv = self._e(cctx, f.value, cctx.cfg.node_for(call), {}, False, depth + 2)
+            except (AnalysisError, RecursionError):
+                return False
+            keys = set()
+            for a in S.alternatives(recv):
+                if a[0] == "self":
+                    keys.add(a[1])
+                elif a[0] == "call" and a[1].startswith("new:"):
+                    keys.add(a[1][4:])
+            if keys:
+                for k in keys:
+                    ci = self._class_by_key(k)
+                    if ci is not None and any(c.key == ctx.ci.key for c in self.prog.mro(ci)):
+                        return True
+                return False
+            # receiver of unknown type: only if no other class of the package has a method of this name
+            owners = [c for mi in self.prog.infos.values() for c in mi.classes.values() if ctx.func.name in c.methods]
+            return len(owners) == 1
+        return False
 
     def _param_annotation(self, ctx: FuncCtx, index) -> ClassInfo | None:
         args = list(ctx.func.args.posonlyargs) + list(ctx.func.args.args)
@@ -914,6 +1070,20 @@ class Recon:
                 return self._ctype_call(ctx, node, target[1], S.C(1), args, kws)
             if target[0] == "arrtype":
                 return self._ctype_call(ctx, node, target[1], target[2], args, kws)
+            if target[0] == "attr" and recv[0] == "p" and fn.attr not in _COMMON_METHOD_NAMES and not fn.attr.startswith("__"):
+                # an untyped parameter as receiver: a method name that exactly one class of the package defines is that method
+                # (what an annotation would have said; receivers with an identity of their own keep it)
+                owners = [c for mi_ in self.prog.infos.values() for c in mi_.classes.values() if fn.attr in c.methods]
+                if len(owners) == 1 and not owners[0].is_property(fn.attr):
+                    c0 = owners[0]
+                    fdef = c0.methods[fn.attr]
+                    fctx = self.ctx_of(fdef)
+                    if not fctx.is_static and not fctx.is_classmethod and ("umo", c0.key, fn.attr) not in self._stack:
+                        self._stack.append(("umo", c0.key, fn.attr))
+                        try:
+                            return self.call_func(f"{c0.key}.{fn.attr}", fdef, [("self", c0.key)] + list(args), kws, depth)
+                        finally:
+                            self._stack.pop()
             if target[0] == "attr":
                 if recv[0] == "mod" and str(recv[1]).startswith("ext:"):
                     args, kws = _positional(f"{recv[1]}.{fn.attr}", args, kws)
@@ -1082,6 +1252,13 @@ class Recon:
         return ("join", tuple(sorted(vals, key=repr)))
 
 
+def args_ann(ctx, index):
+    args = list(ctx.func.args.posonlyargs) + list(ctx.func.args.args)
+    if index is None or index >= len(args):
+        return None
+    return args[index].annotation
+
+
 class FuncCtxLite:
     """Module-level context for resolving names of another module."""
 
@@ -1143,6 +1320,19 @@ _EXT_SIGNATURES = {
     "ext:base64.b64decode": ["s"],
     "ext:urllib.parse.unquote": ["string"],
     "ext:zlib.decompress": ["data", "wbits", "bufsize"],
+}
+
+
+# method names of built-in / standard-library objects: never attributed to a package class just because only one defines them
+_COMMON_METHOD_NAMES = {
+    "get", "read", "seek", "tell", "open", "close", "write", "readinto", "readline", "readlines", "peek", "find", "findall", "iterfind",
+    "iter", "items", "keys", "values", "append", "extend", "insert", "pop", "remove", "clear", "update", "setdefault", "sort", "copy",
+    "index", "count", "join", "split", "rsplit", "strip", "lstrip", "rstrip", "lower", "upper", "encode", "decode", "format",
+    "startswith", "endswith", "replace", "partition", "rpartition", "ljust", "rjust", "tobytes", "hex", "digest", "hexdigest", "verify",
+    "decrypt", "encrypt", "unpack", "unpack_from", "pack", "group", "groupdict", "match", "search", "fullmatch", "decompress", "exists",
+    "is_file", "is_dir", "with_name", "with_suffix", "joinpath", "read_text", "read_bytes", "resolve", "add", "discard", "debug", "info",
+    "warning", "error", "exception", "add_argument", "parse_args", "exit", "removeprefix", "removesuffix", "bit_length", "from_bytes",
+    "to_bytes", "frombytes", "fromstring", "parse", "size", "dumps", "dump", "loads", "load", "next", "send", "throw",
 }
 
 
